@@ -100,7 +100,8 @@ impl Sx {
             Sx::Punct(s) => s.to_string(),
             Sx::Kw(0, s) => format!("#:{}", s),
             Sx::Kw(1, s) => format!(":{}", s),
-            Sx::Kw(_, s) => format!("#:\"{}\"", s),
+            Sx::Kw(2, s) => format!("#:\"{}\"", s),
+            Sx::Kw(_, s) => format!(":\"{}\"", s),
             Sx::Unq(i, false) => format!(",{}", UNQ[*i].0),
             Sx::Unq(i, true) => format!(",({}.clone())", UNQ[*i].0),
             Sx::List(xs) => format!("({})", xs.iter().map(|x| x.tokens()).collect::<Vec<_>>().join(" ")),
@@ -209,6 +210,15 @@ fn atoms() -> Vec<Sx> {
         Sx::Kw(0, "k"),
         Sx::Kw(1, "k"),
         Sx::Kw(2, "k-w"),
+        Sx::Kw(3, "k-w"),
+        // quoted names with multi-byte characters (byte length != character count; seed C09-c)
+        Sx::QSym("λ"),
+        Sx::QSym("naïve-mode"),
+        Sx::QSym("a→😀"),
+        Sx::Kw(2, "λ-kw"),
+        Sx::Kw(3, "é"),
+        Sx::Kw(0, "λ"),
+        Sx::Kw(1, "λx"),
     ];
     for p in ["+", "-", "*", "/", "<", "<=", "=>", "->", "==", "...", "..", "!", "?", "@", "^", "~", "&", "%", "$", "::", ":", "=", ">", "!$%&*+-./:<=>?@^~", "<=>", "-+", "&&"] {
         v.push(Sx::Punct(p));
